@@ -38,6 +38,7 @@ FAST_MS = 1500
 class Ctx:
     def __init__(self, plan=None, max_decisions=4000, timeout_ms=None, deadline=None, max_unwind=None):
         self.deadline = deadline
+        self.stop_file = None
         self.max_unwind = max_unwind or MAX_UNWIND
         self.sites = {}
         self.solver = z3.Solver()
@@ -162,6 +163,8 @@ class Ctx:
             raise UnwindLimit("more than %d branch decisions on one path" % self.max_decisions)
         if self.deadline and time.time() > self.deadline:
             raise UnwindLimit("deadline reached inside a path")
+        if self.stop_file and (i & 15) == 0 and os.path.exists(self.stop_file):
+            raise UnwindLimit("stopped: another case of this run already produced a reproduced violation")
         # loop unwinding assertion: a branch at one source location of the repository taken more than
         # max_unwind times on one path means a loop whose trip count the inputs do not bound
         site = _repo_site()
@@ -441,13 +444,14 @@ class ExploreResult:
 
 
 def explore(fn, max_paths=20000, max_decisions=4000, stop_after_violations=3, timeout_ms=None,
-            deadline=None, max_unwind=None):
+            deadline=None, max_unwind=None, stop_file=None):
     """Run fn(ctx) once per feasible path (depth-first, replaying decision prefixes)."""
     global CTX
     res = ExploreResult()
     plan = []
     while True:
         c = Ctx(plan=plan, max_decisions=max_decisions, timeout_ms=timeout_ms, deadline=deadline, max_unwind=max_unwind)
+        c.stop_file = stop_file
         CTX = c
         for h in PATH_HOOKS:
             h()
@@ -483,5 +487,8 @@ def explore(fn, max_paths=20000, max_decisions=4000, stop_after_violations=3, ti
             break
         if deadline and time.time() > deadline:
             res.limit = "deadline"
+            break
+        if stop_file and os.path.exists(stop_file):
+            res.limit = "stopped: another case of this run already produced a reproduced violation"
             break
     return res
